@@ -85,7 +85,7 @@ func (p *PacketProcessor) ProcessPacketData(data []byte, _ *gopacket.CaptureInfo
 	if err = p.parser.DecodeLayers(data, &p.rcvDecoded); err != nil {
 		return
 	}
-	if !validPacket(p.rcvDecoded) {
+	if !validPacket(p.rcvDecoded, &p.rcvIP) {
 		return
 	}
 
@@ -101,8 +101,17 @@ func (p *PacketProcessor) ProcessPacketData(data []byte, _ *gopacket.CaptureInfo
 	return
 }
 
-func validPacket(decoded []gopacket.LayerType) bool {
-	return len(decoded) == 3 || (len(decoded) == 2 && decoded[0] == layers.LayerTypeIPv4)
+// validPacket reports whether the decoded layers are exactly [Ethernet,] IPv4 and the
+// transport layer of the scan. The decoders are reused, so a layer that is not listed
+// (e.g. behind a nested IPv4 header) still holds the data of a previous packet.
+func validPacket(decoded []gopacket.LayerType, ip *layers.IPv4) bool {
+	n := len(decoded)
+	if n == 3 && decoded[0] == layers.LayerTypeEthernet {
+		decoded = decoded[1:]
+	} else if n != 2 {
+		return false
+	}
+	return decoded[0] == layers.LayerTypeIPv4 && decoded[1] == layers.LayerTypeICMPv4 && ip.Version == 4
 }
 
 type PacketFiller struct {
